@@ -30,10 +30,6 @@ def params(rng, quick, role="client"):
         t3 = t1 + rng.choice([1, 5, 10, 100])
     else:
         t1, t2, t3 = rng.choice([1, 2, 10, 15, 255]), rng.choice([1, 2, 10, 20, 255]), rng.choice([2, 10, 20, 255])
-        if t3 <= t1 and role == "client":
-            t3 = t1 + 1      # client scripts keep t3 > t1 (the usual relation: t3 supervises the idle link, t1 the answer); the
-                             # client sends a further TESTFR act every t3 and gives up after the third, which coincides with the
-                             # t1 rule only for t3 > t1 -- t3 <= t1 is exercised on the server role only
     return dict(k=k, w=w, t1=t1, t2=t2, t3=t3)
 
 
